@@ -67,52 +67,6 @@ Proof.
 Qed.
 Print Assumptions C15_real_stress_formula.
 
-(* F_j(r) = - (d/dx sigma_xj + d/dy sigma_yj + d/dz sigma_zj)(r): real derivatives of the real component
-   functions of the stress tensor, all of which exist *)
-Theorem C15_real_force_is_minus_div_stress :
-  forall (basis : list (shell R)), List.Forall shell_wf basis ->
-  forall (P : nat -> nat -> R), (forall a b, P a b = P b a) -> forall (alpha beta : R) j x y z,
-  ex_derive (fun t => sigmaR (Gb basis P) alpha beta AX j t y z) x
-  /\ ex_derive (fun t => sigmaR (Gb basis P) alpha beta AY j x t z) y
-  /\ ex_derive (fun t => sigmaR (Gb basis P) alpha beta AZ j x y t) z
-  /\ forceR (Gb basis P) alpha beta j x y z
-     = - (Derive (fun t => sigmaR (Gb basis P) alpha beta AX j t y z) x
-          + Derive (fun t => sigmaR (Gb basis P) alpha beta AY j x t z) y
-          + Derive (fun t => sigmaR (Gb basis P) alpha beta AZ j x y t) z).
-Proof.
-  exact (fun basis W P Ps alpha beta =>
-    force_is_minus_div_stress_real (Gb basis P) (Gb_closed basis W P) alpha beta
-      (GR_sym (nfun basis) P (bfun basis) Ps)).
-Qed.
-Print Assumptions C15_real_force_is_minus_div_stress.
-
-(* H_jk(r) = d/dr_k F_j(r): the Ehrenfest Hessian is the Jacobian of the real force field *)
-Theorem C15_real_hessian_is_jacobian_of_force :
-  forall (basis : list (shell R)), List.Forall shell_wf basis ->
-  forall (P : nat -> nat -> R), (forall a b, P a b = P b a) -> forall (alpha beta : R) j k x y z,
-  is_pderiv k (forceR (Gb basis P) alpha beta j) x y z (ehessR (Gb basis P) alpha beta j k x y z).
-Proof.
-  exact (fun basis W P Ps alpha beta =>
-    hessian_is_jacobian_of_force_real (Gb basis P) (Gb_closed basis W P) alpha beta
-      (GR_sym (nfun basis) P (bfun basis) Ps)).
-Qed.
-Print Assumptions C15_real_hessian_is_jacobian_of_force.
-
-(* symmetric=True: 1/2 (d_k F_j + d_j F_k), symmetric *)
-Theorem C15_real_hessian_symmetrised :
-  forall (basis : list (shell R)), List.Forall shell_wf basis ->
-  forall (P : nat -> nat -> R), (forall a b, P a b = P b a) -> forall (alpha beta : R) j k x y z,
-  ehess_symR (Gb basis P) alpha beta j k x y z
-  = / 2 * (pdk (axn k) (forceR (Gb basis P) alpha beta j) x y z
-           + pdk (axn j) (forceR (Gb basis P) alpha beta k) x y z)
-  /\ ehess_symR (Gb basis P) alpha beta j k x y z = ehess_symR (Gb basis P) alpha beta k j x y z.
-Proof.
-  exact (fun basis W P Ps alpha beta =>
-    hessian_symmetrised_real (Gb basis P) (Gb_closed basis W P) alpha beta
-      (GR_sym (nfun basis) P (bfun basis) Ps)).
-Qed.
-Print Assumptions C15_real_hessian_symmetrised.
-
 (* the hypotheses are satisfiable (an s and a p shell, a symmetric rank-2 matrix), the rationals embed
    homomorphically, and the theorems apply: the force of that density is minus the divergence of its stress *)
 Example C15_real_hypotheses :
